@@ -82,4 +82,15 @@ def ofHex (s : String) : Option Bytes :=
 
 def strBytes (s : String) : Bytes := s.toUTF8.toList
 
+/-- UTF-8 encoding of a code point below 0x110000 (1 to 4 bytes), in the shift/mask form both the
+tokener and the specification use (checked against an independent encoder by the correspondence runs) -/
+def utf8Encode (u : Nat) : Bytes :=
+  if u < 0x80 then [UInt8.ofNat u]
+  else if u < 0x800 then [UInt8.ofNat (0xC0 ||| (u >>> 6)), UInt8.ofNat (0x80 ||| (u &&& 0x3F))]
+  else if u < 0x10000 then
+    [UInt8.ofNat (0xE0 ||| (u >>> 12)), UInt8.ofNat (0x80 ||| ((u >>> 6) &&& 0x3F)), UInt8.ofNat (0x80 ||| (u &&& 0x3F))]
+  else
+    [UInt8.ofNat (0xF0 ||| ((u >>> 18) &&& 7)), UInt8.ofNat (0x80 ||| ((u >>> 12) &&& 0x3F)),
+     UInt8.ofNat (0x80 ||| ((u >>> 6) &&& 0x3F)), UInt8.ofNat (0x80 ||| (u &&& 0x3F))]
+
 end JsonC
